@@ -3,7 +3,7 @@
    Rand monad; a failing operation raises and leaves the machine as it was (irun).  Only statements; proofs are `exact`. *)
 From Coq Require Import ZArith List Bool.
 From GV.Model Require Import Env.
-From GV.Lemmas Require Import RandL C04L.
+From GV.Lemmas Require Import RandL C04L NonVac.
 Import ListNotations.
 Open Scope Z_scope.
 
@@ -43,3 +43,10 @@ Proof. exact read_idempotent. Qed.
 (* asking for the state (or observing, or stepping) before the first reset raises *)
 Theorem C04_state_before_reset : forall e debug op, op <> OpReset -> istep e debug ie_init op = Raise RuntimeError.
 Proof. exact state_before_reset. Qed.
+
+(* non-vacuity: on a concrete environment (4x4 empty room, move/turn, 3x3 transparent view) the machine reaches -- by reset, a move, a read -- a
+   state with a memoised observation, which is an observation of the current state (agent at (1,2)): the hypotheses `reachable` above are met
+   by non-trivial machine states *)
+Example C04_nonvacuous : exists m s o, reachable e0 true m /\ ie_state m = Some s /\ ie_obs m = Some o /\ spos s = (1, 2) /\
+  Leaf (functional_observation e0 true s) (Ok o).
+Proof. exact nonvac_C04. Qed.
